@@ -79,7 +79,7 @@ func c06Run(c *core.Ctx) {
 }
 
 func c06Replay(c *core.Ctx, payload json.RawMessage) {
-	if c06ZonesReplay(c, payload) {
+	if c06ZonesReplay(c, payload) || c06ListsReplay(c, payload) {
 		return
 	}
 	var p c06Payload
